@@ -3,7 +3,7 @@
 import os, json, shutil, glob, re
 for out in sorted(glob.glob('/tmp/mut/C??.out')):
     prop = os.path.basename(out)[:3]
-    for v in ("a", "b", "alt", "c", "d", "e", "f", "g", "h"):
+    for v in ("a", "b", "alt", "c", "d", "e", "f", "g", "h", "i", "j"):
         d = '%s/%s' % (out, v)
         vf = d + '/verify.txt'
         if not os.path.exists(vf):
